@@ -382,6 +382,21 @@ def entails_empty(tests, var):
     return True
 
 
+def empty_edges(g, var):
+    """{(test node, label)}: the outcomes of single tests that force `var` to be empty (if not var / if var == b'' / if len(var) == 0,
+    the else-side of `if var:` ...), however the test is written"""
+    out = set()
+    for t in g.nodes:
+        if t.kind != 'test' or t.ast is None:
+            continue
+        if not any(isinstance(x, ast.Name) and x.id == var for x in ast.walk(t.ast)):
+            continue
+        for lab in ('true', 'false'):
+            if entails_empty([(t.ast, lab == 'true')], var):
+                out.add((t, lab))
+    return out
+
+
 def paths_entail_empty(g, node, var, limit=4000, skip_labels=('exc',)):
     """on EVERY simple path from the entry to *node* the tests passed on the way (minus those whose variables were
     reassigned afterwards) force `var` to be falsy -- or contradict each other (the path cannot be taken).
